@@ -4,6 +4,7 @@ import (
 	"encoding/gob"
 	"go/ast"
 	"go/token"
+	"sort"
 	"sync"
 )
 
@@ -81,9 +82,24 @@ func prepareFile(file *ast.File) *ast.File {
 	copy := *file
 	file = &copy
 
-	// Clear fields that can be easily reconstructed.
+	// Clear fields that can be easily reconstructed. Comment groups attached to
+	// nodes are found again by unpackFile; free-floating ones (they may carry
+	// directives such as //go:linkname) have to be kept.
 	file.Imports = nil
-	file.Comments = nil
+	attached := map[*ast.CommentGroup]bool{}
+	ast.Inspect(file, func(n ast.Node) bool {
+		if cg, ok := n.(*ast.CommentGroup); ok {
+			attached[cg] = true
+		}
+		return true
+	})
+	var floating []*ast.CommentGroup
+	for _, cg := range file.Comments {
+		if !attached[cg] {
+			floating = append(floating, cg)
+		}
+	}
+	file.Comments = floating
 
 	// Clear fields that are deprecated.
 	file.Scope = nil
@@ -115,6 +131,9 @@ func unpackFile(file *ast.File) {
 		return true
 	})
 	file.Imports = imports
+	// file.Comments holds the free-floating groups that were serialized.
+	comments = append(comments, file.Comments...)
+	sort.SliceStable(comments, func(i, j int) bool { return comments[i].Pos() < comments[j].Pos() })
 	file.Comments = comments
 }
 
